@@ -104,9 +104,17 @@ def run(args):
             R.samples.append(dict(input=dict(parents=d["parents"], ncomp=d["ncomp"], solver=solver, backend=backend, ck=ck), jax_grad=ad, model_dual=mdl, finite_diff=fd))
     # ---------------- (B) active models with make_trainable
     nB = {"quick": 1, "thorough": 6}[args.tier]
-    for t in range(nB):
-        kind = "net" if (args.shard + t) % 2 == 0 else "cell"
-        if kind == "cell":
+    for t in range(nB + 1):
+        directed = t == nB      # one directed model per shard: one parameter per branch, branches of unequal size (padded index groups)
+        kind = "net" if (args.shard + t) % 2 == 0 and not directed else "cell"
+        if directed:
+            ncs = [[4, 2, 3], [1, 3, 2], [2, 4, 1], [3, 1, 4]][args.shard % 4]
+            comp_ = jx.Compartment()
+            mod = jx.Cell([jx.Branch([comp_] * k_) for k_ in ncs], parents=[-1, 0, 0])
+            mod.insert(HH()); mod.set("v", -65.0)
+            mod.set("radius", rng.uniform(0.5, 3.0, sum(ncs))); mod.set("length", rng.uniform(5.0, 40.0, sum(ncs)))
+            desc = dict(parents=[-1, 0, 0], ncomp=ncs, channels=["HH"], directed=True)
+        elif kind == "cell":
             mod, desc = random_cell(rng, 3, 3, channels=["HH"] if rng.random() < 0.5 else ["Na", "K", "Leak"])
         else:
             mod, desc = random_network(rng, same_shape=True, syn_types=["IonotropicSynapse", "TestSynapse"], nsyn=int(rng.integers(1, 4)))
@@ -121,7 +129,10 @@ def run(args):
         ck = [None, [3, int(math.ceil(nsteps / 3)) + 1]][(args.shard + t) % 2]
         cands = ["radius", "length", "axial_resistivity", "capacitance", "v"] + [k for c in mod.channels for k in list(c.channel_params) + list(c.channel_states)[:1]]
         made = []
-        for _ in range(int(rng.integers(1, 4))):
+        if directed:
+            for key in ("radius", str(rng.choice(["HH_gNa", "HH_gK", "length", "capacitance", "HH_m"]))):
+                mod.branch("all").make_trainable(key, verbose=False); made.append((key, "branch-all"))
+        for _ in range(int(rng.integers(1, 4)) if not directed else 0):
             key = str(rng.choice(cands))
             how = str(rng.choice(["all", "branch", "comp"]))
             try:
